@@ -29,7 +29,7 @@ claim("C04", "other",
       "Decides co-update disciplines that keep the on-disk structure well-formed: pointer/bitmap/inode co-update through the commit funnel (S1), name and link co-update (S2), link-count balance across inverse operations (S3), emptiness check before directory unlink (S4), range assertion on pointer-producing paths (S5), only regular files have client-settable content/size (S7), cache slots only under the lock (S8). Not the invariant on any concrete state.",
       "pairing / who-writes / guard dominance over go/ssa", "DESIGN.md section 3 C04")
 claim("C05", "other",
-      "Decides structural conditions of full reclamation: truncate-before-free and shrinker start (F1), allocator epilogues exactly at commit/abort (F2), no double return (F3), no resize of a half-freed inode (F4), link-count balance (F5), shrinker accounting (F6), index blocks released with their first slot and Shrink results handed on (F8, F1). Not the arithmetic of Shrink/indshrink.",
+      "Decides structural conditions of full reclamation: truncate-before-free and shrinker start (F1), allocator epilogues exactly at commit/abort (F2), no double return (F3), no resize of a half-freed inode (F4), link-count balance (F5), shrinker accounting (F6), index blocks released with their first slot and Shrink results handed on (F8, F1), refused commits undone (F9), no index block linked without a data block (F10). Not the arithmetic of Shrink/indshrink.",
       "must-precede / must-use-result / who-may-call over go/ssa", "DESIGN.md section 3 C05")
 claim("C06", "other",
       "Lock-order analysis of every inode-lock acquisition site reachable from any entry point: each nested acquisition must match an ordering idiom (guarded ascending, sorted loop, allocator-fresh, owned); every transaction ends exactly once on every path; no foreign transaction under locks; mutex pairing; nothing held across retry iterations; every terminator releases all locks on every path (L5). Termination of retry loops is not decided.",
@@ -41,10 +41,10 @@ claim("C08", "other",
       "Decides handle-codec symmetry, generation bump at every birth/death on every path with fixed writers of Kind/Gen, the checking accessor's guards, and that every handle argument of every procedure is checked before a success reply, under the transaction that replies (a validation is void after that transaction aborts). Uniqueness over a history is not decided.",
       "codec symmetry + who-writes + guard dominance over go/ssa", "DESIGN.md section 3 C08")
 claim("C09", "other",
-      "Decides that error replies abort and never commit (A1), that abort discards in-place cache mutations (A2), that rejected/unsupported requests are effect-free (A4) and that commit results are not dropped (A5), cache slots only under the lock (A7). Equality of the whole state before/after is not decided.",
+      "Decides that error replies abort and never commit (A1), that abort discards in-place cache mutations (A2), that rejected/unsupported requests are effect-free (A4) and that commit results are not dropped (A5), cache slots only under the lock (A7), a commit the journal refuses is undone like an abort (A8). Equality of the whole state before/after is not decided.",
       "transaction typestate + reachability over go/ssa", "DESIGN.md section 3 C09")
 claim("C10", "other",
-      "Decides write-through of every cached inode mutation before commit (W1), name cache mirrors directory writes (W2), on-disk codecs are inverse and fit their slots (W3), caches dropped on abort (W4), cache slots only under the lock (W6), locks released only after the durability point (W7), no commit of an aborted transaction (W8). The comparison of two servers' observable state is not decided.",
+      "Decides write-through of every cached inode mutation before commit (W1), name cache mirrors directory writes (W2), on-disk codecs are inverse and fit their slots (W3), caches dropped on abort (W4), cache slots only under the lock (W6), locks released only after the durability point (W7), no commit of an aborted transaction (W8), refused commits undone (W9). The comparison of two servers' observable state is not decided.",
       "dirty/clean typestate + codec symmetry over go/ssa", "DESIGN.md section 3 C10")
 claim("C11", "other",
       "Decides that each client-controlled quantity is validated before it reaches a trapping operation for the listed sinks (decode length, inode number range, offset overflow, count vs data, client-sized allocation), the nil-transaction and unchecked-nil-slice crash causes, name checks on both names, directory cookies, sizes settable on regular files only (V12), link counts kept positive (V13), terminators release their locks (V14), and an inventory of reachable explicit panics. Not a proof of panic freedom.",
